@@ -3,29 +3,73 @@
 Each function listed in SPECS is located in /repo's working tree by name (ast), its
 parameter list is checked against the spec, and its body is translated by a SMALL typed
 expression / statement translator.  Fail-closed: every construct outside the supported subset
-(see `Tr.expr`, `Tr.stmts`) raises TranslateError - nothing is guessed.
+(see `Tr.expr`, `Tr.stmts`) raises TranslateError - nothing is guessed.  The spec of a function
+declares the TYPES of its parameters (and of locals whose first value is an empty literal); what
+the translator emits is then checked by Coq's type checker, and a pin theorem
+(coq/Proofs/FuncsPin*.v) proves it equal to the hand-written model function for every input.
 
 Supported subset
   types       str (list N), int (Z), bool, dyn (a header value: str / number / None, behind the
-              operation record `dyn_ops`), pat / pats (pattern = list of fragment names; only in
-              "patterns" mode)
+              operation record `dyn_ops`: truthiness, == 0, is None, str(), int / str injections),
+              pat / pats (pattern = list of fragment names; only in "patterns" mode),
+              list of T, dict with str keys (association list in insertion order), optional T
+              (a parameter defaulting to None), item (HeaderItem / CurveItem: record py_item of the
+              session mnemonic, original mnemonic, unit, value : dyn, descr), keys (the **keys of a
+              SectionParser method: record py_keys), function (a parameter that is called, a
+              nested def, a lambda), version / order table / order entry (defaults.ORDER_DEFINITIONS
+              as Gen/Tables.v states it), float (the result of np.float64, behind `num_ops`),
+              compiled regex / substitution template (named constants of Gen/Regexes.v)
   expressions Name, self.<declared attribute>, Constant str/int/bool/None,
               s.strip(), s.strip(<const>), s.upper(), s.lower(), s.startswith(e), s.endswith(e),
-              s.find(e), s.rfind(e), len(s), s[i] (may raise IndexError: the
+              s.find(e), s.rfind(e), s.ljust(n), len(s), len(list), s[i] (may raise IndexError: the
               function then returns `option`), s[a:b] with optional int bounds (Python's negative
-              / out-of-range bound rules), a + b on str or pat, -<int>,
-              ==, != on str/str and int/int, <, <=, >, >= on int/int, in / not in on str/str,
-              `v == 0` / `v != 0` and `v is None` / `v is not None` on dyn,
-              and / or / not (operands through Python truthiness),
+              / out-of-range bound rules), s.split(<const>)[0], a + b on str / pat / int, a - b on
+              int, str * int, -<int>, "<const format with %s only>" % (args), str(e),
+              ==, != on str/str and int/int, <, <=, >, >= on int/int, in / not in on str/str and
+              str/list of str, `v == 0` / `v != 0` and `v is None` / `v is not None` on dyn,
+              `x is None` on an optional, and / or / not (operands through Python truthiness),
+              e1 if c else e2, [e for x in list] (element must not raise), max(list of int)
+              (ValueError on []: option), [<str constants>], {<str const>: e, ...} and [] / {} for a
+              local with a declared type, d[k] (KeyError: option), d[k] = v, d.get(k, default),
+              keys["name"|"unit"|"value"|"descr"], item.<field>, item.useful_mnemonic (the translated
+              property), item[k] (the translated HeaderItem.__getitem__), HeaderItem(m, u, v, d) /
+              CurveItem(m, u, v, d) (pyo_new_item: what __init__ stores), table[version][section]
+              (KeyError: option), entry[0], entry[1:], calls of a function-typed name,
+              self.<method translated earlier>(args) (its self attributes are passed on),
               re.search(<const pattern>, s) (truthiness only; the pattern is parsed by CPython's
-              own re parser, translators/regexes.py)
-  statements  docstring, pass, local `name = expr`, `lst.append(e)` on a pats local,
-              if / elif / else, return, `try: ... except AttributeError: pass` (transparent: no
-              supported operation on the declared types raises AttributeError)
+              own re parser, translators/regexes.py), re.sub(pattern, template, s) and
+              <MODULE_REGEX>.fullmatch(s) on named constants of Gen/Regexes.v,
+              isinstance(x, str|int|float|bool|slice) and hasattr(x, <const>) on a str-typed x and
+              `a is b` between a str and an item (decided by the types; as the test of an `if` the
+              unreachable branch is not translated), source expressions the spec maps to a constant
+              or to an operation of an oracle record (`const_exprs`, `oracles`)
+  statements  docstring, pass, logger.<level>(...) (skipped: logging is not modelled and its arguments
+              are assumed not to raise), local `name = expr`, `a, b = <pair constant>`, `name += e`,
+              `lst.append(e)`, `d[k] = v`, if / elif / else, return, raise (the function returns
+              option; None = it raised), `if x is None: x = e` on an optional parameter,
+              for x in <list> / for k, v in d.items() / for a, b in <order entries> (a fold over the
+              variables the body rebinds; no break / continue / raise; a body that may raise makes
+              the fold option-valued; a body with `return` makes it sum-valued, inl = returned;
+              for-else runs the else clause after the loop), nested def and `name = lambda`
+              (Gallina closures; refused if a captured variable is rebound at or after the
+              definition or if defined in a loop), `return lambda p: e` for a function declared
+              `returns_lambda` (the Gallina function takes p after its own parameters; falling off
+              the end = None: calling the result would raise),
+              `return self.<this method>(args)` (a fuel-indexed Fixpoint, fuel declared in the spec;
+              out of fuel = None),
+              `try: ... except AttributeError: pass` (transparent: no supported operation on the
+              declared types raises AttributeError), `try: <statements that cannot raise> except: pass`
+              (transparent; refused if the body may raise), `try: return F(x)` / `try: v = F(x)` with a
+              bare `except:` handler where F is an external call the spec declares as raising (np.int64,
+              np.float64): match on the operation's option result
   control     statement lists become nested let / if in continuation-passing style, so a later
               assignment shadows an earlier one exactly as in Python; an `if` without `return`
-              and without a partial operation is joined (`let '(a, b) := if c then .. else .. in`),
+              is joined (`let '(a, b) := if c then .. else .. in`; str / int values are injected into
+              dyn, T into optional T where the branches differ; option-valued if a branch may raise),
               any other `if` duplicates the continuation into both branches.
+  fragments   RouteTr (the section-letter chain of LASFile.read), HeaderPostTr (read_header_line's loop
+              over m.groupdict()): located by shape, every other statement of the host function must
+              not touch the fragment's variables.
 """
 import ast
 import os
